@@ -57,7 +57,7 @@ VERDICT = {
     "C18-3": ("C18 D", ""),
     "C18-4": ("C18 F", "abspath-key check added after the miss"),
     "C20-1": (None, "crash from program structure (recursive alias): outside the narrow folding claim"),
-    "C20-2": (None, "daemon loop: outside the narrow folding claim"),
+    "C20-2": ("C20 K3", "daemon work-list kernel added after the miss; replay = real daemon under a time limit vs a fresh run"),
 }
 
 ALLOWED_FAIL = ("testpep561", "testDaemonStatusKillRestartRecheck", "testYieldThrow", "testForIterable")
